@@ -16,6 +16,7 @@ from __future__ import annotations
 
 import ast
 import asyncio
+import collections.abc
 import base64
 import copy
 import functools
@@ -23,6 +24,9 @@ import json
 import logging
 import os
 import random
+import re
+import urllib.parse
+import warnings as pywarnings
 from typing import Any
 
 from .. import leanio, pyextract
@@ -42,7 +46,11 @@ LEVEL_TEXT = (
     "proved), apply_nonmapping_root_raises (the one guard is needed); whole review (code after 2903555: one outcome "
     "per selected handler, key (index, id)): serve_allowed_iff (allowed iff no function with a matching registration "
     "raised — unguarded, also for two different functions under one id, the repaired C18-F6), serve_errors_complete "
-    "(the status is chosen among ALL selected handlers' errors), serve_warnings_order. Clauses proved only under a "
+    "(the status is chosen among ALL selected handlers' errors), serve_warnings_order; the review request: "
+    "review_is_about_the_object (whenever the review carries `object`, handlers, filters and the patch reference are "
+    "about THAT object, for every `oldObject`), review_without_object (DELETE: `oldObject`; neither: refused before any "
+    "handler), review_patch_fidelity (the fidelity clause with the patch applied to `request.object`, for every "
+    "oldObject; same hypotheses as returned_patch_fidelity). Clauses proved only under a "
     "hypothesis: (1) 'the "
     "returned JSON patch applied to the object': returned_patch_fidelity takes, as a hypothesis, that jsonpatch's "
     "output for THIS review reproduces the wanted body (pointwise contract) — checked on every generated case by an "
@@ -57,8 +65,11 @@ TIE = ("T (sort key of build_response, class hierarchy of AdmissionError, iter_h
        "status/warnings/patch statements of build_response, Patch.__bool__ and the falsy-patch shortcut of "
        "as_json_patch, the handler id in clientConfig anchored verbatim) + D (real Patch._apply_patch + fns; "
        "Patch.as_json_patch through an independent RFC 6902 applier; build_response incl. patch/patchType; the whole "
-       "serve_admission_request vs the model's `serve` with the real from_diff output as the diff parameter; "
-       "build_webhooks rule operations; Lean mergePatch vs the Python RFC 7386 reference).")
+       "serve_admission_request, from the request payload on (object / oldObject, also different ones), vs the model's "
+       "`serveReview` with the real from_diff output as the diff parameter; handlers registered through kopf.on.validate/"
+       "mutate (incl. the deprecated `operation=`, operations as list/tuple/set/frozenset, field-suffixed ids) as well as "
+       "hand-built; build_webhooks rule operations; every handler's configured URL decoded back to its id, and reviews "
+       "POSTed over loopback HTTP to kopf.WebhookServer at those URLs; Lean mergePatch vs the Python RFC 7386 reference).")
 THEOREMS = [
     ("Kopf.Props.C18", "Kopf.C18.allowed_iff"),
     ("Kopf.Props.C18", "Kopf.C18.status_iff_denied"),
@@ -76,6 +87,9 @@ THEOREMS = [
     ("Kopf.Props.C18", "Kopf.C18.fidelity"),
     ("Kopf.Props.C18", "Kopf.C18.fidelity_fns"),
     ("Kopf.Props.C18", "Kopf.C18.returned_patch_fidelity"),
+    ("Kopf.Props.C18", "Kopf.C18.review_is_about_the_object"),
+    ("Kopf.Props.C18", "Kopf.C18.review_without_object"),
+    ("Kopf.Props.C18", "Kopf.C18.review_patch_fidelity"),
     ("Kopf.Props.C18", "Kopf.C18.serve_allowed_iff"),
     ("Kopf.Props.C18", "Kopf.C18.serve_errors_complete"),
     ("Kopf.Props.C18", "Kopf.C18.serve_warnings_order"),
@@ -96,8 +110,15 @@ RULE = ("three seeded streams: (patch) k8s-shaped and random bodies, patch deriv
         "allow_deletion}; (serve) registry of 1-4 webhook handlers (reason, operations, subresource incl. '*', "
         "filters, patch piece, fns, warnings, raised error class/code/message; in a third of the cases one function is "
         "registered 2-3 times under the same id with other reason/operations/subresource/filters, in a quarter two "
-        "different functions share one id) x request (operation incl. DELETE/"
-        "CONNECT/None, subresource, webhook and reason hints); (response) real build_response over outcome lists "
+        "different functions share one id; declared through kopf's decorators or hand-built, operations as list/tuple/"
+        "set/frozenset/deprecated `operation=`, ids with '/', '%', '?', '#', space, unicode and field suffixes; the "
+        "requested changes as a script of writes through patch[...] / patch.spec / patch.status / patch.meta.labels / "
+        "patch.metadata.annotations, several handlers under one stanza, nested mappings optionally as non-dict "
+        "Mappings) x request (operation incl. DELETE/CONNECT/None, subresource, webhook and reason hints, the webhook "
+        "hint optionally decoded from the URL of the managed configuration, UPDATE reviews whose oldObject differs from "
+        "object — preferably by already having what the handlers ask for, and in the selecting label —, null vs absent "
+        "object/oldObject, v1 and v1beta1 reviews); (e2e) 3-7 handlers with special ids served by kopf.WebhookServer over "
+        "loopback HTTP, one review per configured URL plus one to an unknown id; (response) real build_response over outcome lists "
         "of length 0-6 with and without a JSON patch (incl. patch on denial); every serve case is also pushed as a whole "
         "through the model's `serve`, and its handlers through build_webhooks. A case is distinct/non-trivial by its (stream, feature tags, result class) abstraction.")
 TRUSTED = [
@@ -120,8 +141,15 @@ ASSUMPTIONS = [
     "serve_admission_request before any response exists, like the pre-handler failures",
     "returned_patch_fidelity assumes jsonpatch's contract as a hypothesis; it is checked on every generated case through "
     "an independent RFC 6902 applier, and is known to fail on the inputs of C18-F4 / C18-F5",
-    "a handler's effect on the shared patch object is taken as the final patch content and fns (handlers are arbitrary "
-    "code); the model accounts per handler for the warnings it appends and the exception it raises",
+    "a handler's requested changes are its declared script of writes on the `patch` kwarg (items, kopf's spec/status/"
+    "metadata views) and the functions it queues; the requested content is those writes in execution order (independent "
+    "reference, not read back from the patch object); the model accounts per handler for the warnings it appends and the "
+    "exception it raises",
+    "a webhook server hands over, as the webhook id, the percent-decoded rest of the URL path after its base path (true of "
+    "kopf.WebhookServer on aiohttp: checked end to end over loopback HTTP in every run where sockets are available — "
+    "counted as e2e:* / server-unavailable in the histograms)",
+    "the error's message/code are taken from the handler's DECLARATION (class, message text, code given to AdmissionError), "
+    "`str(e) or repr(e)` being Python's for an exception built from one message argument",
     "serve_admission_request's failures before any handler runs (MissingDataError, Unknown/AmbiguousResourceError) and "
     "the conditions under which block_deletion/allow_deletion raise are not property clauses: oracle/tie only",
     "a review without an operation (malformed) matches every handler, as in the code; '*' among the declared operations "
@@ -524,6 +552,40 @@ def err_tag(e: BaseException) -> str:
     return {"TypeError": "type-error", "KeyError": "key-error", "ValueError": "value-error"}.get(type(e).__name__, "exc:" + type(e).__name__)
 
 
+class MapView(collections.abc.Mapping):
+    """a mapping that is NOT a dict (as kopf's own `spec`/`status`/`body` views, `types.MappingProxyType`, …):
+    handlers may put such values into the patch; the merge must treat them as mappings."""
+    def __init__(self, d: dict) -> None:
+        self._d = d
+
+    def __getitem__(self, k: Any) -> Any:
+        return self._d[k]
+
+    def __iter__(self) -> Any:
+        return iter(self._d)
+
+    def __len__(self) -> int:
+        return len(self._d)
+
+    def __repr__(self) -> str:
+        return f"MapView({self._d!r})"
+
+
+def to_view(v: Any) -> Any:
+    """every mapping below (and including) `v` as a non-dict Mapping; lists stay opaque (they are leaves)"""
+    if isinstance(v, dict):
+        return MapView({k: to_view(x) for k, x in v.items()})
+    return v
+
+
+def unview(v: Any) -> Any:
+    if isinstance(v, collections.abc.Mapping):
+        return {k: unview(x) for k, x in v.items()}
+    if isinstance(v, list):
+        return [unview(x) for x in v]
+    return v
+
+
 # =================================================================================================
 # generators
 # =================================================================================================
@@ -727,18 +789,25 @@ def gen_patch_case(r: random.Random) -> dict:
     fns = gen_fns(r)
     if fns and not fns_safe(body, patch):
         fns = []
-    return {"stream": "patch", "body": body, "patch": patch, "fns": fns, "tags": sorted(tags)}
+    case = {"stream": "patch", "body": body, "patch": patch, "fns": fns, "tags": sorted(tags)}
+    if r.random() < 0.15 and any(isinstance(v, dict) for v in patch.values()):
+        # the nested mappings of the patch are not dicts (a handler put one of kopf's views, a
+        # MappingProxyType, … into the patch): same instructions, other Mapping class
+        case["mapview"] = True
+        case["tags"] = sorted(tags | {"non-dict-mapping"})
+    return case
 
 
 ERR_KINDS = ["admission", "permanent", "temporary", "other"]
 MESSAGES = ["", "denied", "boom ü", "x" * 40]
+CODES = [400, 403, 409, 422, 500, 599, 123, 299, None, 0, "default"]
 
 
 def gen_error(r: random.Random) -> dict:
     kind = r.choice(ERR_KINDS)
     e: dict[str, Any] = {"kind": kind, "msg": r.choice(MESSAGES)}
     if kind == "admission":
-        e["code"] = r.choice([400, 403, 422, 500, 599, None, 0, "default"])
+        e["code"] = r.choice(CODES)
         e["sub"] = r.random() < 0.2         # a subclass of AdmissionError
     elif kind == "permanent":
         e["cls"] = r.choice(["PermanentError", "HandlerTimeoutError", "HandlerRetriesError"])
@@ -769,6 +838,73 @@ OPERATIONS = ["CREATE", "UPDATE", "DELETE", "CONNECT"]
 SUBS = [None, "status", "scale"]
 
 
+ID_FORMS = ["h{}", "h{}", "h{}", "chk/{}", "mod.{}", "é{}", "a b{}", "p%{}", "x!{}", "q?{}", "n#{}", "k8s.io/v-{}"]
+FIELD_SUFFIX = "/spec.a"          # what kopf's decorators append to the id of a handler with field='spec.a'
+OPS_FORMS = ["list", "list", "list", "tuple", "set", "frozenset", "deprecated"]
+
+
+def handler_writes(h: dict) -> list[dict]:
+    """the handler's requested changes as a script of writes on the `patch` kwarg: `item` = patch[key] = value,
+    `spec`/`status` = patch.spec[key] = value, `labels`/`annotations` = patch.metadata.<api>[key] = value
+    (`meta` is an alias of `metadata`). Cases from before the script existed carry a `piece` of top-level items."""
+    if "writes" in h:
+        return h["writes"]
+    return [{"api": "item", "key": k, "value": v} for k, v in h.get("piece", {}).items()]
+
+
+def ref_write(ref: dict, w: dict) -> None:
+    """what a write means for the content of the merge-patch (independent of kopf's view classes)"""
+    api, k, v = w["api"], w["key"], copy.deepcopy(w["value"])
+    if api == "item":
+        ref[k] = v
+    elif api in ("spec", "status"):
+        ref.setdefault(api, {})[k] = v
+    elif api in ("labels", "annotations"):
+        ref.setdefault("metadata", {}).setdefault(api, {})[k] = v
+    else:
+        raise ValueError(f"unknown write api {api!r}")
+
+
+def gen_old(r: random.Random, body: dict, hs: list[dict]) -> dict:
+    """the stored object of an UPDATE review: differs from the submitted one — preferably exactly where the
+    handlers ask for changes (it may already have what they ask for: nothing to patch relative to IT)."""
+    old = copy.deepcopy(body)
+    writers = [h for h in hs if handler_writes(h)]
+    x = r.random()
+    if writers and x < 0.65:
+        for h in r.sample(writers, r.randint(1, len(writers))):
+            ref: dict = {}
+            for w in handler_writes(h):
+                if r.random() < 0.8:
+                    ref_write(ref, w)
+            merged = merge7386(old, ref)
+            if isinstance(merged, dict):
+                old = merged
+    if x >= 0.45 or old == body:
+        if isinstance(old.get("spec"), dict) and r.random() < 0.7:
+            for k in r.sample(KEYS, r.randint(1, 2)):
+                if k in old["spec"] and r.random() < 0.5:
+                    del old["spec"][k]
+                else:
+                    old["spec"][k] = gen_value(r, 2)
+        if r.random() < 0.4:
+            k = r.choice(KEYS)
+            if k in old:
+                del old[k]
+            else:
+                old[k] = gen_value(r, 1)
+    meta = old.get("metadata")
+    if not isinstance(meta, dict):
+        meta = old["metadata"] = copy.deepcopy(body.get("metadata", {})) if isinstance(body.get("metadata"), dict) else {}
+    if isinstance(meta.get("labels"), dict) and r.random() < 0.6:
+        # the selecting label differs between the stored and the submitted object
+        cur = meta["labels"].get("sel")
+        meta["labels"]["sel"] = "no" if cur == "yes" else "yes"
+    if r.random() < 0.3:
+        meta["finalizers"] = r.sample(FINALIZERS, r.randint(0, 2))
+    return old
+
+
 def gen_serve_case(r: random.Random) -> dict:
     body = gen_body(r)
     if not isinstance(body.get("metadata", {}), dict) or r.random() < 0.7:
@@ -783,33 +919,64 @@ def gen_serve_case(r: random.Random) -> dict:
     hs = []
     used_top: set[str] = set()
     safe_fns = fns_safe(body, {})
+    # top-level stanzas the handlers of this case write through kopf's views (patch.spec[...] = ...): several
+    # handlers may then write under ONE top-level key; nobody replaces such a stanza as a whole
+    view_tops = {t for t in ("spec", "status") if r.random() < 0.45}
+    meta_views = isinstance(body.get("metadata"), dict) and all(
+        isinstance(body["metadata"].get(a, {}), dict) for a in ("labels", "annotations"))
     for i in range(n):
         tags: set[str] = set()
         reason = r.choice(["validating", "mutating", "mutating"])
         ops_choice = r.choice([None, None, ["DELETE"], ["CREATE"], ["CREATE", "UPDATE"], ["CREATE", "DELETE"],
                                ["UPDATE", "DELETE"], ["DELETE", "DELETE"], ["CONNECT"], ["*"], ["*", "CREATE"], []])
         h: dict[str, Any] = {
-            "id": f"h{i}", "reason": reason, "operations": ops_choice,
+            "id": r.choice(ID_FORMS).format(i), "fn": f"f{i}", "reason": reason, "operations": ops_choice,
             "subresource": subresource if r.random() < 0.45 else r.choice([None, "status", "scale", "*", "*"]),
-            "filter": r.choice(["none"] * 6 + ["when-true", "when-false", "label-yes", "other-resource"]),
+            "filter": r.choice(["none"] * 6 + ["when-true", "when-false", "label-yes", "other-resource", "field-a"]),
             "warnings": [r.choice(["w", "deprecated field", "ü"]) + str(i) for _ in range(r.choice([0, 0, 1, 2]))],
             "error": gen_error(r) if r.random() < 0.4 else None,
-            "piece": {}, "fns": [],
+            "writes": [], "fns": [],
         }
+        if h["filter"] == "field-a":
+            h["id"] += FIELD_SUFFIX
+        # how the handler is declared: through kopf's decorators (as users do) or as a hand-built handler object;
+        # the declared operations as a list / tuple / set / frozenset, or through the deprecated `operation=`
+        h["via"] = "decorator" if ops_choice != [] and r.random() < 0.6 else "direct"
+        h["ops_form"] = "list" if not ops_choice else r.choice(OPS_FORMS)
+        if h["ops_form"] == "deprecated" and (h["via"] != "decorator" or len(set(ops_choice)) != 1):
+            h["ops_form"] = "frozenset"
         if reason == "mutating" or r.random() < 0.15:
             src = {k: v for k, v in body.items() if k not in used_top}
             piece = gen_patch(r, src, 0, tags, r.choice([0.0, 0.0, 0.0, 0.5]), protect=True)
-            piece = {k: v for k, v in piece.items() if k not in used_top and k != "metadata"}
-            if r.random() < 0.25 and "metadata" not in used_top:
-                piece["metadata"] = {"labels": {r.choice(["app", "sel"]): r.choice([None, "v2"])}}
-            used_top |= set(piece)
-            h["piece"] = piece
+            for k, v in piece.items():
+                if k in used_top or k == "metadata":
+                    continue
+                if k in view_tops:
+                    if isinstance(v, dict) and v:
+                        h["writes"] += [{"api": k, "key": k2, "value": v2} for k2, v2 in v.items()]
+                        tags.add("write-through-view")
+                else:
+                    h["writes"].append({"api": "item", "key": k, "value": v})
+                    used_top.add(k)
+            for t in sorted(view_tops):
+                if isinstance(body.get(t), dict) and not any(w["api"] == t for w in h["writes"]) and r.random() < 0.6:
+                    sub = gen_patch(r, body[t], 1, tags, 0.0)
+                    if r.random() < 0.5:
+                        nk = r.choice(KEYS)
+                        if nk not in body[t]:
+                            sub[nk] = gen_new(r, 1, tags)
+                    if sub:
+                        h["writes"] += [{"api": t, "key": k2, "value": v2} for k2, v2 in sub.items()]
+                        tags.add("write-through-view")
+            if meta_views and r.random() < 0.3:
+                api = r.choice(["labels", "labels", "annotations"])
+                h["writes"].insert(r.randint(0, len(h["writes"])),
+                                   {"api": api, "key": r.choice(["app", "sel", "k8s.io/n"]), "value": r.choice([None, "v2", "yes"])})
+                tags.add("write-" + api)
             if safe_fns and r.random() < 0.35:
                 h["fns"] = gen_fns(r)
         h["tags"] = sorted(tags)
         hs.append(h)
-    for h in hs:
-        h["fn"] = "f" + h["id"][1:]
     if r.random() < 0.35:
         # stacked decorators: ONE function registered 2-3 times under the SAME id with other criteria
         # (kopf's decorators derive the id from the function name, so the ids of the stack are equal)
@@ -819,27 +986,40 @@ def gen_serve_case(r: random.Random) -> dict:
             if r.random() < 0.25:
                 twin["reason"] = "validating" if base["reason"] == "mutating" else "mutating"
             twin["operations"] = r.choice([None, ["CREATE"], ["UPDATE"], ["DELETE"], ["CREATE", "UPDATE"], ["CONNECT"], ["*"]])
+            twin["ops_form"] = "list" if not twin["operations"] else r.choice(OPS_FORMS[:-1])
             twin["subresource"] = subresource if r.random() < 0.5 else r.choice([None, "status", "scale", "*"])
-            twin["filter"] = r.choice(["none"] * 4 + ["when-true", "when-false", "label-yes", "other-resource"])
+            if base["filter"] != "field-a":   # (the field is part of the id)
+                twin["filter"] = r.choice(["none"] * 4 + ["when-true", "when-false", "label-yes", "other-resource"])
             hs.insert(r.randint(hs.index(base) + 1, len(hs)), twin)
     if r.random() < 0.25:
         # TWO DIFFERENT functions under ONE id (e.g. `@kopf.on.validate` and `@kopf.on.mutate` on two functions of
         # one name, as in `def check` twice): both are candidates for every review sent to that webhook id
         base = r.choice(hs)
         other = copy.deepcopy(base)
-        other["fn"] = "g" + base["id"][1:]
+        other["fn"] = "g" + base["fn"][1:]
         other["reason"] = ("validating" if base["reason"] == "mutating" else "mutating") if r.random() < 0.7 else base["reason"]
         other["warnings"] = [w + "'" for w in base["warnings"]] if r.random() < 0.5 else []
         other["error"] = gen_error(r) if r.random() < 0.5 else None
-        other["piece"], other["fns"], other["tags"] = {}, [], []
+        other["writes"], other["fns"], other["tags"] = [], [], []
         if r.random() < 0.5:
-            other["subresource"], other["filter"], other["operations"] = base["subresource"], base["filter"], base["operations"]
+            other["subresource"], other["operations"] = base["subresource"], base["operations"]
+        elif base["filter"] != "field-a":
+            other["filter"] = r.choice(["none", "none", "when-true", "when-false", "label-yes"])
         hs.insert(r.choice([hs.index(base), hs.index(base) + 1, len(hs)]), other)
     ids_ = [h["id"] for h in hs]
-    webhook = r.choice([None] * 6 + [r.choice(ids_), r.choice(ids_), "nobody"])
+    webhook = r.choice([None] * 6 + [r.choice(ids_), r.choice(ids_), r.choice(ids_), "nobody"])
     reason_hint = r.choice([None] * 5 + ["validating", "mutating"])
-    return {"stream": "serve", "body": body, "operation": operation, "subresource": subresource,
-            "webhook": webhook, "reason": reason_hint, "handlers": hs}
+    case: dict[str, Any] = {"stream": "serve", "body": body, "operation": operation, "subresource": subresource,
+                            "webhook": webhook, "reason": reason_hint, "handlers": hs}
+    # the hint as a webhook server gets it: the path of the URL kopf configured for that handler, decoded
+    case["hint_via_url"] = webhook in ids_ and r.random() < 0.75
+    if operation == "UPDATE" and r.random() < 0.75:
+        case["old_body"] = gen_old(r, body, hs)
+    case["null_keys_absent"] = r.random() < 0.3       # `object`/`oldObject` omitted instead of null
+    case["api"] = r.choice(["v1", "v1", "v1beta1"])
+    if r.random() < 0.12:
+        case["mapview"] = True                         # nested mappings are written as non-dict Mappings
+    return case
 
 
 def gen_response_case(r: random.Random) -> dict:
@@ -873,6 +1053,28 @@ def errinfo(e: BaseException, env: dict) -> dict:
             else "temporary" if isinstance(e, ex.TemporaryError) else "other")
     code = getattr(e, "code", None) if kind == "admission" else None
     return {"kind": kind, "code": code, "str": str(e), "repr": repr(e)}
+
+
+def declared_errinfo(e: dict) -> dict:
+    """What the handler raised, from the case's DECLARATION (class, message, code) — not read back from the
+    exception object, so that kopf's own exception classes are part of what is checked: the class decides
+    the kind, `str(error) or repr(error)` is Python's for an exception constructed with one message argument,
+    the code is the one given to AdmissionError (500 when not given)."""
+    kind, msg = e["kind"], e["msg"]
+    if kind == "admission":
+        name = "QuotaExceeded" if e.get("sub") else "AdmissionError"
+        code = 500 if e["code"] == "default" else e["code"]
+        return {"kind": kind, "code": code, "str": str(msg), "repr": f"{name}({msg!r})"}
+    if kind == "permanent":
+        return {"kind": kind, "code": None, "str": str(msg), "repr": f"{e['cls']}({msg!r})"}
+    if kind == "temporary":
+        return {"kind": kind, "code": None, "str": str(msg), "repr": f"TemporaryError({msg!r})"}
+    name = e["cls"]
+    if name == "KeyError":
+        return {"kind": kind, "code": None, "str": repr(msg), "repr": f"KeyError({msg!r})"}
+    if msg:
+        return {"kind": kind, "code": None, "str": str(msg), "repr": f"{name}({msg!r})"}
+    return {"kind": kind, "code": None, "str": "", "repr": f"{name}()"}
 
 
 def oracle_response(res: Result, resp: dict, raised: list[dict | None], warnings: list[str]) -> None:
@@ -1010,21 +1212,29 @@ def eval_patch(env: dict, case: dict) -> Result:
     body, patch, fns = case["body"], case["patch"], case["fns"]
     res.tags = list(case.get("tags", [])) + (["fns"] if fns else [])
     fn_objs = mk_fns(env, fns)
+
+    def given() -> dict:
+        """the patch content as the handler wrote it: plain dicts, or non-dict mappings below the root"""
+        if case.get("mapview"):
+            return {k: to_view(v) for k, v in copy.deepcopy(patch).items()}
+        return copy.deepcopy(patch)
     # (1) the mechanism alone: the real _apply_patch + fns on a copy
     b2 = copy.deepcopy(body)
     impl1: Any
     try:
-        p = patches.Patch(copy.deepcopy(patch), fns=fn_objs)
+        p = patches.Patch(given(), fns=fn_objs)
         p._apply_patch(b2, (), dict(p))
         for fn in p.fns:
             fn(b2)
+        json.dumps(b2)   # the mutated body must still be plain JSON
         impl1 = ["ok", b2]
     except Exception as e:
         impl1 = ["err", err_tag(e)]
     # (2) the public way: as_json_patch against the body
     ops, exc = None, None
     try:
-        ops = patches.Patch(copy.deepcopy(patch), fns=fn_objs).as_json_patch(copy.deepcopy(body))
+        ops = patches.Patch(given(), fns=fn_objs).as_json_patch(copy.deepcopy(body))
+        json.dumps(ops)   # what build_response does with them next
     except Exception as e:
         exc = e
     got = oracle_patch(res, body, patch, fn_objs, ops, exc, impl1[1] if impl1[0] == "ok" else None)
@@ -1062,7 +1272,7 @@ def eval_response(env: dict, case: dict) -> Result:
     outcomes = {f"h{i}": ex.Outcome(final=True, exception=e) for i, e in enumerate(excs)}
     resp = adm.build_response(request={"request": {"uid": "u"}}, outcomes=outcomes, warnings=list(case["warnings"]),
                               jsonpatch=copy.deepcopy(case["jsonpatch"]))
-    raised = [errinfo(e, env) if e is not None else None for e in excs]
+    raised = [declared_errinfo(e) if e is not None else None for e in case["outcomes"]]
     oracle_response(res, resp, raised, case["warnings"])
     r = resp["response"]
     if case["jsonpatch"]:
@@ -1096,24 +1306,48 @@ def _hj(h: dict) -> dict:
             "fn": h.get("fn", h["id"])}
 
 
-def _entries(env: dict, case: dict, raised: dict, labels_now: Any) -> list[dict]:
-    """every registered handler with its remaining-filters bit and what its invocation does"""
+def filter_bit(h: dict, reviewed: dict) -> bool:
+    """the handler's remaining filters on the reviewed object, from the declaration"""
+    meta = reviewed.get("metadata", {})
+    labels_now = meta.get("labels", {}) if isinstance(meta, dict) else {}
+    spec = reviewed.get("spec")
+    return {"none": True, "when-true": True, "when-false": False, "other-resource": False,
+            "label-yes": isinstance(labels_now, dict) and labels_now.get("sel") == "yes",
+            "field-a": isinstance(spec, dict) and "a" in spec}[h["filter"]]
+
+
+def _entries(case: dict, reviewed: dict) -> list[dict]:
+    """every registered handler with its remaining-filters bit and what its invocation does (as declared)"""
     out = []
     for h in case["handlers"]:
-        m = {"none": True, "when-true": True, "when-false": False, "other-resource": False,
-             "label-yes": isinstance(labels_now, dict) and labels_now.get("sel") == "yes"}[h["filter"]]
-        if _key(h) in raised:
-            err = errinfo(raised[_key(h)], env)
-        else:
-            err = errinfo(mk_exception(env, h["error"]), env) if h["error"] is not None else None
-        out.append({"handler": _hj(h),
-                    "m": m, "warnings": list(h["warnings"]), "error": err})
+        err = declared_errinfo(h["error"]) if h["error"] is not None else None
+        out.append({"handler": _hj(h), "m": filter_bit(h, reviewed), "warnings": list(h["warnings"]), "error": err})
     return out
+
+
+HOOK_BASE = "https://op.example/base"
+
+
+def decode_hook_id(url: str) -> str:
+    """what a webhook server that serves `<base>/{id}` (kopf's own: aiohttp route `{path}/{id:.*}`) takes for
+    the handler id of a review sent to this URL: the rest of the PATH, percent-decoded."""
+    parts = urllib.parse.urlsplit(url)
+    prefix = urllib.parse.urlsplit(HOOK_BASE).path + "/"
+    if not parts.path.startswith(prefix):
+        return "<not under the base path>"
+    return urllib.parse.unquote(parts.path[len(prefix):])
+
+
+def _ops_value(h: dict) -> Any:
+    ops, form = h["operations"], h.get("ops_form", "list")
+    if ops is None or form in ("list", "deprecated"):
+        return ops
+    return {"tuple": tuple, "set": set, "frozenset": frozenset}[form](ops)
 
 
 async def eval_serve(env: dict, case: dict) -> Result:
     res = Result()
-    adm, H, causes = env["admission"], env["handlers"], env["causes"]
+    adm, H, causes, kopf = env["admission"], env["handlers"], env["causes"], env["kopf"]
     references, registries, ids = env["references"], env["registries"], env["ids"]
     settings = env["configuration"].OperatorSettings()
     resource = references.Resource("kopf.dev", "v1", "kopfexamples", namespaced=True)
@@ -1122,30 +1356,43 @@ async def eval_serve(env: dict, case: dict) -> Result:
     indices = env["indexing"].OperatorIndexers().indices
     memories = env["inventory"].ResourceMemories()
     registry = registries.OperatorRegistry()
-    body = case["body"]
+    body = case["body"]          # the reviewed object: `object`, or `oldObject` of a DELETE review
     log: list[tuple[str, str]] = []   # (fn, id) of the invoked functions, in invocation order
-    raised: dict[tuple[str, str], BaseException] = {}
     issued: list[str] = []
-    holder: dict[str, Any] = {}
+    seen_bodies: list[Any] = []
     groups: dict[tuple[str, str], list[dict]] = {}
     for h in case["handlers"]:
         groups.setdefault(_key(h), []).append(h)
+    as_views = bool(case.get("mapview"))
 
     def mk_fn(h: dict):
         # the behaviour belongs to the function: all stacked registrations of it share it
-        async def fn(patch, warnings, **_):
+        async def fn(patch, warnings, body, **_):
             log.append(_key(h))
-            holder["patch"] = patch
+            seen_bodies.append(copy.deepcopy(dict(body)))
             for w in h["warnings"]:
                 warnings.append(w)
                 issued.append(w)
-            for k, v in h["piece"].items():
-                patch[k] = copy.deepcopy(v)
+            for w in handler_writes(h):
+                v = copy.deepcopy(w["value"])
+                v = to_view(v) if as_views else v
+                api, k = w["api"], w["key"]
+                if api == "item":
+                    patch[k] = v
+                elif api == "spec":
+                    patch.spec[k] = v
+                elif api == "status":
+                    patch.status[k] = v
+                elif api == "labels":
+                    (patch.metadata if len(k) % 2 else patch.meta).labels[k] = v
+                elif api == "annotations":
+                    (patch.meta if len(k) % 2 else patch.metadata).annotations[k] = v
+                else:
+                    raise ValueError(api)
             patch.fns.extend(mk_fns(env, h["fns"]))
             if h["error"] is not None:
-                e = mk_exception(env, h["error"])
-                raised[_key(h)] = e
-                raise e
+                raise mk_exception(env, h["error"])
+        fn.__name__ = _key(h)[0]
         return fn
 
     fn_by_key = {k: mk_fn(g[0]) for k, g in groups.items()}
@@ -1153,12 +1400,51 @@ async def eval_serve(env: dict, case: dict) -> Result:
         flt = h["filter"]
         when = (lambda **_: True) if flt == "when-true" else (lambda **_: False) if flt == "when-false" else None
         labels = {"sel": "yes"} if flt == "label-yes" else None
-        selector = references.Selector("otherkinds") if flt == "other-resource" else references.Selector("kopfexamples")
-        registry._webhooks.append(H.WebhookHandler(
-            fn=fn_by_key[_key(h)], id=ids.HandlerId(h["id"]), param=None, errors=None, timeout=None, retries=None, backoff=None,
-            selector=selector, labels=labels, annotations=None, when=when, field=None, value=None,
-            reason=causes.WebhookType(h["reason"]), operations=h["operations"], subresource=h["subresource"],
-            persistent=None, side_effects=None, ignore_failures=None))
+        kind_name = "otherkinds" if flt == "other-resource" else "kopfexamples"
+        field = "spec.a" if flt == "field-a" else None
+        if h.get("via") == "decorator":
+            # as users declare them; the id given to the decorator is the one before the field suffix
+            deco = kopf.on.validate if h["reason"] == "validating" else kopf.on.mutate
+            given_id = h["id"][:-len(FIELD_SUFFIX)] if field is not None and h["id"].endswith(FIELD_SUFFIX) else h["id"]
+            kw: dict[str, Any] = {"id": given_id, "subresource": h["subresource"], "labels": labels, "when": when,
+                                  "field": field, "registry": registry}
+            if h.get("ops_form") == "deprecated":
+                kw["operation"] = h["operations"][0]
+            else:
+                kw["operations"] = _ops_value(h)
+            with pywarnings.catch_warnings():
+                pywarnings.simplefilter("ignore")
+                deco(kind_name, **kw)(fn_by_key[_key(h)])
+        else:
+            registry._webhooks.append(H.WebhookHandler(
+                fn=fn_by_key[_key(h)], id=ids.HandlerId(h["id"]), param=None, errors=None, timeout=None, retries=None, backoff=None,
+                selector=references.Selector(kind_name), labels=labels, annotations=None, when=when,
+                field=("spec", "a") if field is not None else None, value=None,
+                reason=causes.WebhookType(h["reason"]), operations=_ops_value(h), subresource=h["subresource"],
+                persistent=None, side_effects=None, ignore_failures=None))
+    registered = registry._webhooks.get_all_handlers()
+    if [str(x.id) for x in registered] != [h["id"] for h in case["handlers"]]:
+        res.fail(f"handlers are registered under ids {[str(x.id) for x in registered]!r}, declared {[h['id'] for h in case['handlers']]!r}",
+                 {"site": "kopf.on.validate/mutate", "shape": "handler id differs from the declared one"})
+    # the managed configuration kopf would send to the apiserver for these handlers:
+    # each handler's webhook carries its id in the URL and its declared operations in the rule
+    hooks = adm.build_webhooks(registered, resources=[resource], name_suffix="sfx", client_config={"url": HOOK_BASE + "/"})
+    for h, w in zip(case["handlers"], hooks):
+        back = decode_hook_id(w["clientConfig"]["url"])
+        if back != h["id"]:
+            res.fail(f"the webhook of handler {h['id']!r} is configured with the URL {w['clientConfig']['url']!r}: a review sent "
+                     f"there arrives with the id {back!r}, which is not the handler's",
+                     {"site": "admission.build_webhooks", "shape": "the webhook URL does not lead back to the handler id"})
+        rule_ops = None if not w["rules"] else w["rules"][0]["operations"]
+        if h["filter"] != "other-resource" and h.get("ops_form", "list") == "list":
+            res.reqs.append(("ruleops", ["C18.ruleops", _hj(h)], ["ok", rule_ops]))
+    hint = case["webhook"]
+    if case.get("hint_via_url") and hint is not None:
+        for h, w in zip(case["handlers"], hooks):
+            if h["id"] == hint:
+                hint = decode_hook_id(w["clientConfig"]["url"])
+                res.tags.append("hint-via-url")
+                break
     op = case["operation"]
     payload: dict[str, Any] = {"uid": "uid1", "resource": {"group": "kopf.dev", "version": "v1", "resource": "kopfexamples"},
                                "userInfo": {"username": "u", "uid": "uu", "groups": []}, "name": "n", "namespace": "ns",
@@ -1168,42 +1454,39 @@ async def eval_serve(env: dict, case: dict) -> Result:
     if op == "DELETE":
         payload["object"], payload["oldObject"] = None, copy.deepcopy(body)
     elif op == "UPDATE":
-        payload["object"], payload["oldObject"] = copy.deepcopy(body), copy.deepcopy(body)
+        payload["object"], payload["oldObject"] = copy.deepcopy(body), copy.deepcopy(case.get("old_body", body))
+        if "old_body" in case and not eq_strict(case["old_body"], body):
+            res.tags.append("update:old-differs")
     else:
         payload["object"], payload["oldObject"] = copy.deepcopy(body), None
-    request = {"apiVersion": "admission.k8s.io/v1", "kind": "AdmissionReview", "request": payload}
+    if case.get("null_keys_absent"):
+        payload = {k: v for k, v in payload.items() if v is not None or k not in ("object", "oldObject")}
+    api_version = "admission.k8s.io/" + case.get("api", "v1")
+    request = {"apiVersion": api_version, "kind": "AdmissionReview", "request": payload}
     resp, exc = None, None
     try:
         resp = await adm.serve_admission_request(
             request, settings=settings, registry=registry, insights=insights, memories=memories, memobase=object(),
-            indices=indices, webhook=ids.HandlerId(case["webhook"]) if case["webhook"] is not None else None,
+            indices=indices, webhook=ids.HandlerId(hint) if hint is not None else None,
             reason=causes.WebhookType(case["reason"]) if case["reason"] is not None else None)
+        if resp is not None:
+            json.dumps(resp)   # what every webhook server does with it next
     except Exception as e:
         exc = e
-    # ---- handler selection: oracle + gate tie
-    labels_now = body.get("metadata", {}).get("labels", {}) if isinstance(body.get("metadata", {}), dict) else {}
+    # ---- handler selection: oracle + gate tie. The criteria are the DECLARED ones, evaluated on the reviewed
+    # object; a review sent to a handler's URL is a review FOR that handler (whatever id the URL decodes to).
     cj_all = {"reason": case["reason"], "webhook": case["webhook"], "operation": op, "subresource": case["subresource"]}
-    # the managed configuration kopf would send to the apiserver for these handlers:
-    # each handler's webhook carries its id in the URL and its declared operations in the rule
-    hooks = adm.build_webhooks(registry._webhooks.get_all_handlers(), resources=[resource], name_suffix="sfx",
-                               client_config={"url": "https://op.example/base/"})
-    by_url = {w["clientConfig"]["url"].rsplit("/", 1)[-1]: w for w in hooks}
-    id_count: dict[str, int] = {}
-    for h in case["handlers"]:
-        id_count[h["id"]] = id_count.get(h["id"], 0) + 1
-    for h in case["handlers"]:
-        w = by_url.get(h["id"])
-        rule_ops = None if w is None or not w["rules"] else w["rules"][0]["operations"]
-        if h["filter"] != "other-resource" and id_count[h["id"]] == 1:
-            res.reqs.append(("ruleops", ["C18.ruleops", _hj(h)], ["ok", rule_ops]))
     cj = cj_all
+    for seen in seen_bodies:
+        if not eq_strict(seen, body):
+            res.fail(f"a handler was given the body {leanio.canon(seen)[:300]}, the reviewed object is {leanio.canon(body)[:300]}",
+                     {"site": "admission.serve_admission_request", "shape": "handlers see another object than the reviewed one"})
+            break
 
     def criteria(h: dict) -> dict:
-        m = {"none": True, "when-true": True, "when-false": False, "other-resource": False,
-             "label-yes": isinstance(labels_now, dict) and labels_now.get("sel") == "yes"}[h["filter"]]
         mut_del = h["reason"] == "mutating" and op == "DELETE"
         return {
-            "m": m,
+            "m": filter_bit(h, body),
             "hint_ok": (case["reason"] is None or case["reason"] == h["reason"]) and (case["webhook"] is None or case["webhook"] == h["id"]),
             "sub_ok": h["subresource"] == "*" or h["subresource"] == case["subresource"],
             "mut_del": mut_del,
@@ -1252,23 +1535,35 @@ async def eval_serve(env: dict, case: dict) -> Result:
             res.tags.append("stacked:" + ("ran" if ran else "skipped") + (":first-reg-mismatch" if ran and not matches(crs[0], False) else ""))
         for h in group:
             res.tags.append(f"gate:{h['reason'][:3]}:{'del' if op == 'DELETE' else 'nondel'}:{'ran' if ran else 'skipped'}")
+            res.tags.append(f"via:{h.get('via', 'direct')}:{h.get('ops_form', 'list') if h['operations'] else 'no-ops'}")
+            if not re.fullmatch(r"h\d+", h["id"]):
+                res.tags.append("id:special")
+            if h["filter"] not in ("none",):
+                res.tags.append("filter:" + h["filter"])
     # the whole selection (registry order, dedup after matching) against the model
-    res.reqs.append(("select", ["C18.select", _entries(env, case, raised, labels_now), cj], ["ok", [list(k) for k in log]]))
+    res.reqs.append(("select", ["C18.select", _entries(case, body), cj], ["ok", [list(k) for k in log]]))
     if len(groups) == len(case["handlers"]) and log != [_key(h) for h in case["handlers"] if _key(h) in log]:
         res.fail("handlers ran out of registry order", {"site": "admission.serve_admission_request", "shape": "execution order"})
-    # ---- the patch
-    patch_obj = holder.get("patch")
-    content = copy.deepcopy(dict(patch_obj)) if patch_obj is not None else {}
-    fn_objs = list(patch_obj.fns) if patch_obj is not None else []
+    # ---- the patch: what the handlers that ran ASKED for (their declared writes, in order), not what is found
+    # in some patch object afterwards
+    content: dict = {}
+    for k in log:
+        for w in handler_writes(groups[k][0]):
+            ref_write(content, w)
     fns_decl = [f for k in log for f in groups[k][0]["fns"]]
-    raised_list = [errinfo(raised[k], env) if k in raised else None for k in log]
+    fn_objs = mk_fns(env, fns_decl)
+    raised_list = [declared_errinfo(groups[k][0]["error"]) if groups[k][0]["error"] is not None else None for k in log]
     for k in dict.fromkeys(log):
         res.tags.extend(groups[k][0].get("tags", []))
+    if as_views and any(isinstance(v, dict) for v in content.values()):
+        res.tags.append("non-dict-mapping")
+    new_j = payload.get("object")
+    old_j = payload.get("oldObject")
     if exc is not None:
         oracle_patch(res, body, content, fn_objs, None, exc)
         if not res.diff_suspect:
             res.reqs.append(("apply(serve error)", ["C18.apply", body, content, fns_decl], ["err", err_tag(exc)]))
-            res.reqs.append(("serve", ["C18.serve", _entries(env, case, raised, labels_now), cj_all, body, content, fns_decl, []],
+            res.reqs.append(("serve", ["C18.review", _entries(case, body), cj_all, new_j, old_j, content, fns_decl, []],
                              ["err", err_tag(exc)]))
         res.tags.append("serve-raises")
         return res
@@ -1289,6 +1584,7 @@ async def eval_serve(env: dict, case: dict) -> Result:
         pp._apply_patch(tb, (), dict(pp))
         for fn in pp.fns:
             fn(tb)
+        json.dumps(tb)
         to_be = tb
     except Exception:
         to_be = None
@@ -1297,14 +1593,15 @@ async def eval_serve(env: dict, case: dict) -> Result:
         res.reqs.append(("apply(serve json patch applied)", ["C18.apply", body, content, fns_decl], ["ok", got]))
     # ---- allowed / status / warnings
     # the property: EVERY selected handler's outcome counts (one outcome per invocation, also for same-id handlers)
+    declared_warnings = [w for k in log for w in groups[k][0]["warnings"]]
     strict = Result()
-    oracle_response(strict, resp, raised_list, issued)
+    oracle_response(strict, resp, raised_list, declared_warnings)
     if strict.fails and len({k[1] for k in log}) < len(log):
         by_id: dict[str, Any] = {}
         for k, e in zip(log, raised_list):
             by_id[k[1]] = e
         lenient = Result()
-        oracle_response(lenient, resp, list(by_id.values()), issued)
+        oracle_response(lenient, resp, list(by_id.values()), declared_warnings)
         if not lenient.fails:
             # the shape of the repaired C18-F6: the response is the one of an id-keyed outcomes dict
             lost = [k for k, e in zip(log, raised_list) if e is not None and by_id[k[1]] is not e]
@@ -1316,24 +1613,121 @@ async def eval_serve(env: dict, case: dict) -> Result:
         res.tags.append("same-id:two-functions-ran")
     if r.get("uid") != "uid1":
         res.fail("response uid differs from the request uid", {"site": "admission.build_response", "shape": "uid"})
+    if resp.get("apiVersion") != api_version or resp.get("kind") != "AdmissionReview":
+        # the apiserver rejects a response whose apiVersion/kind differ from the review it sent
+        res.fail(f"the response is {resp.get('kind')!r} of {resp.get('apiVersion')!r}, the review was of {api_version!r}",
+                 {"site": "admission.build_response", "shape": "apiVersion/kind not echoed"})
     if ("patch" in r) != bool(ops) or (r.get("patchType") == "JSONPatch") != ("patch" in r):
         res.fail("patch / patchType are not 'present exactly when there are operations'",
                  {"site": "admission.build_response", "shape": "patch encoding"})
     impl = _resp_view(r)
-    res.reqs.append(("response(serve)", ["C18.response", raised_list, issued, ops], ["ok", impl]))
-    res.reqs.append(("serve", ["C18.serve", _entries(env, case, raised, labels_now), cj_all, body, content, fns_decl, ops], ["ok", impl]))
+    res.reqs.append(("response(serve)", ["C18.response", raised_list, declared_warnings, ops], ["ok", impl]))
+    res.reqs.append(("serve", ["C18.review", _entries(case, body), cj_all, new_j, old_j, content, fns_decl, ops], ["ok", impl]))
     if ops and not r.get("allowed"):
         res.tags.append("patch-on-denial")
     res.tags += sorted({"err:" + e["kind"] for e in raised_list if e})
     res.tags.append("op:" + str(op))
     res.tags.append("sub:" + str(case["subresource"]))
+    res.tags.append("api:" + case.get("api", "v1"))
     if res.result == "ok":
         res.result = "allowed" if r.get("allowed") else "denied"
     return res
 
 
+def gen_e2e_case(r: random.Random) -> dict:
+    """reviews sent over HTTP to the URLs kopf configures, served by kopf's own WebhookServer"""
+    n = r.randint(3, 7)
+    hs = []
+    for i in range(n):
+        hid = r.choice(ID_FORMS[2:]).format(i)
+        fld = r.random() < 0.25
+        hs.append({"id": hid + (FIELD_SUFFIX if fld else ""), "field": fld, "reason": r.choice(["validating", "mutating"]),
+                   "error": gen_error(r) if r.random() < 0.4 else None})
+    return {"stream": "e2e", "handlers": hs, "path": r.choice(["/base", "/base", "", "/a/b"]),
+            "stray": r.choice(["nobody", "h", "chk", "spec.a"])}
+
+
+async def eval_e2e(env: dict, case: dict) -> Result:
+    """The webhook id end to end: handler id -> URL in the managed configuration (build_webhooks) -> HTTP
+    request -> kopf.WebhookServer's route -> `webhook=` of serve_admission_request -> the gate. A review
+    sent to a handler's URL runs that handler and only that one, and is answered from ITS outcome."""
+    import functools as ft
+    import aiohttp
+    res = Result()
+    adm, kopf, references, registries = env["admission"], env["kopf"], env["references"], env["registries"]
+    registry = registries.OperatorRegistry()
+    ran: list[str] = []
+
+    def mk(h: dict, i: int):
+        async def fn(**_):
+            ran.append(h["id"])
+            if h["error"] is not None:
+                raise mk_exception(env, h["error"])
+        fn.__name__ = f"f{i}"
+        return fn
+    for i, h in enumerate(case["handlers"]):
+        deco = kopf.on.validate if h["reason"] == "validating" else kopf.on.mutate
+        given = h["id"][:-len(FIELD_SUFFIX)] if h["field"] else h["id"]
+        deco("kopfexamples", id=given, field="spec.a" if h["field"] else None, registry=registry)(mk(h, i))
+    resource = references.Resource("kopf.dev", "v1", "kopfexamples", namespaced=True)
+    insights = references.Insights()
+    insights.webhook_resources.add(resource)
+    fn = ft.partial(adm.serve_admission_request, settings=env["configuration"].OperatorSettings(), registry=registry,
+                    insights=insights, memories=env["inventory"].ResourceMemories(), memobase=object(),
+                    indices=env["indexing"].OperatorIndexers().indices)
+    review = {"apiVersion": "admission.k8s.io/v1", "kind": "AdmissionReview", "request": {
+        "uid": "uid1", "operation": "CREATE", "resource": {"group": "kopf.dev", "version": "v1", "resource": "kopfexamples"},
+        "userInfo": {"username": "u", "uid": "uu", "groups": []}, "name": "n", "namespace": "ns",
+        "object": {"metadata": {"name": "n", "namespace": "ns"}, "spec": {"a": 1}}, "oldObject": None, "dryRun": False}}
+    server = kopf.WebhookServer(addr="127.0.0.1", path=case["path"] or None, insecure=True)
+    agen = server(fn).__aiter__()
+    try:
+        try:
+            client_config = await agen.__anext__()
+        except OSError:
+            res.tags.append("server-unavailable")   # no loopback sockets here: nothing observed, nothing claimed
+            res.result = "skipped"
+            return res
+        hooks = adm.build_webhooks(registry._webhooks.get_all_handlers(), resources=[resource], name_suffix="sfx",
+                                   client_config=client_config)
+        async with aiohttp.ClientSession(timeout=aiohttp.ClientTimeout(total=20)) as session:
+            targets = [(h, w["clientConfig"]["url"]) for h, w in zip(case["handlers"], hooks)]
+            targets.append((None, client_config["url"].rstrip("/") + "/" + case["stray"]))
+            for h, url in targets:
+                ran.clear()
+                try:
+                    async with session.post(url, json=review) as r:
+                        status, text = r.status, await r.text()
+                except (aiohttp.ClientConnectionError, asyncio.TimeoutError):
+                    res.tags.append("transport-error")   # the loopback connection itself failed: no verdict
+                    continue
+                want_ran = [] if h is None else [h["id"]]
+                what = f"the review POSTed to {url!r} (the URL configured for handler {h['id']!r})" if h is not None else \
+                    f"the review POSTed to {url!r} (no handler of that id)"
+                if status != 200:
+                    res.fail(f"{what} is answered with HTTP {status}: {text[:200]}",
+                             {"site": "kopf.WebhookServer", "shape": "review to a configured URL not served"})
+                    continue
+                if ran != want_ran:
+                    res.fail(f"{what} ran the handlers {ran!r}, expected {want_ran!r}",
+                             {"site": "admission.build_webhooks", "shape": "the webhook URL does not lead back to the handler id"})
+                    continue
+                sub = Result()
+                err = declared_errinfo(h["error"]) if h is not None and h["error"] is not None else None
+                oracle_response(sub, json.loads(text), [err] if h is not None else [], [])
+                res.fails.extend(sub.fails)
+                res.tags.append("e2e:" + ("stray" if h is None else "denied" if err else "allowed"))
+                if h is not None and not re.fullmatch(r"h\d+", h["id"]):
+                    res.tags.append("id:special")
+    finally:
+        await agen.aclose()
+    return res
+
+
 async def eval_case(env: dict, case: dict) -> Result:
     s = case.get("stream")
+    if s == "e2e":
+        return await eval_e2e(env, case)
     if s == "patch":
         return eval_patch(env, case)
     if s == "response":
@@ -1348,6 +1742,8 @@ async def eval_case(env: dict, case: dict) -> Result:
 # =================================================================================================
 def gen_case(r: random.Random) -> dict:
     x = r.random()
+    if x < 0.004:
+        return gen_e2e_case(r)
     if x < 0.60:
         return gen_patch_case(r)
     if x < 0.88:
